@@ -89,6 +89,7 @@ register(PropSpec(
     "C12",
     engines=[EngineSpec("ledger", gen, gen_ledger.mon_c12, gen_ledger.tags_ledger, quick_n=300, thorough_n=8000),
              EngineSpec("exec", gen_facade, mon_facade, tags_facade, quick_n=40, thorough_n=800, mask=mon_exec.mask_unmodelled)],
+    facts=["journalWindow"],
     rule="ledger engine: block histories with creations, overwrites, deletions, delete-then-recreate, code changes, touched-but-unchanged accounts, "
          "every 4th history longer than the 10-block journal window; rollback targets current/-1/-2/random/0/above head, full state dump after every "
          "rollback compared with the dump recorded when that height was committed; refusals must leave the version unchanged; "
